@@ -66,11 +66,11 @@ def judgeTrace (args : List String) : String :=
     | some steps =>
       -- start-up is not an operation on the acknowledged state (`recover_abs`); only its store discipline matters
       if op == "startup" then
-        (if disciplined steps then "ok trivial" else s!"violation store-discipline op={op}")
+        (if disciplined steps (redlOf op) then "ok trivial" else s!"violation store-discipline op={op}")
       else if !oneVisibleTx steps then
         s!"violation more-than-one-visible-transaction chunks={(chunks steps none).length} (crash between them is neither before nor after)"
-      else if !disciplined steps then
-        s!"violation store-discipline op={op} (a cache file is written or deleted for an id that has a committed row, or a row is committed without its complete file)"
+      else if !disciplined steps (redlOf op) then
+        s!"violation store-discipline op={op} (a cache file is written or deleted for an id that has a committed row that cannot be re-downloaded, or a row is committed without its complete file)"
       else if (chunks steps none).length == 1 then "ok nontrivial"
       else "ok trivial"
   | _ => "bad-op"
